@@ -14,6 +14,7 @@ import (
 	"pgregory.net/rapid"
 
 	"github.com/vmware/go-ipfix/pkg/entities"
+	"github.com/vmware/go-ipfix/pkg/exporter"
 
 	"verifharness/ev"
 	"verifharness/exph"
@@ -60,6 +61,9 @@ func TestMain(m *testing.M) {
 	glue.SilenceKlog()
 	pool, _ = glue.NewPoolArgs()
 	if rp := ev.LoadReplay(); rp != nil {
+		if rp.Phase == "transient_write_failure" {
+			ev.RunReplay(rp, runTransient)
+		}
 		ev.RunReplay(rp, func(c Case) *ev.Failure { return runCase(c, nil) })
 	}
 	rec = ev.New("C09", "sessions mixing valid template/data sends with: data for an id never sent, records with a wrong field count (-1, +1, 0), an Undefined set, data and template sets whose message length is each value around the 65535-byte limit (enumerated every run), and values that cannot be encoded for their element (IPv4 element holding an IPv6 address or nil, IPv6 element holding 5 bytes, MAC of length != 6, fixed-length octet array of the wrong length); a harness-owned socket captures every byte and every invalid step is followed by a valid marker message; non-trivial = an invalid step followed by a valid one whose bytes were verified; distinct by hash of the case",
@@ -207,7 +211,24 @@ func runCase(c Case, st *Stats) *ev.Failure {
 			}
 			tp := tpls[s.Of%len(tpls)]
 			fields := append([]ref.Field(nil), tp.Fields...)
+			var r []ref.Value
+			merged := false
+			if s.Delta == -2 && len(s.Recs) > 0 {
+				// re-typed record: two adjacent fixed-length fields become one octet array of the same
+				// total width, so the record has one field fewer but exactly the bytes of a valid one
+				for k := 0; k+1 < len(fields); k++ {
+					a, b := fields[k], fields[k+1]
+					if a.Len != ref.VarLen && b.Len != ref.VarLen && int(a.Len)+int(b.Len) <= 100 && int(a.Len)+int(b.Len) > 0 {
+						w := int(a.Len) + int(b.Len)
+						fields = append(append(append([]ref.Field(nil), fields[:k]...), glue.UserFixedOctets(w)), fields[k+2:]...)
+						r = append(append(append([]ref.Value(nil), s.Recs[0][:k]...), ref.Value{B: make([]byte, w)}), s.Recs[0][k+2:]...)
+						merged = true
+						break
+					}
+				}
+			}
 			switch {
+			case merged:
 			case s.Delta == -100:
 				fields = nil
 			case s.Delta < 0:
@@ -215,14 +236,16 @@ func runCase(c Case, st *Stats) *ev.Failure {
 			default:
 				fields = append(fields, glue.UserField(ref.TU8))
 			}
-			r := make([]ref.Value, len(fields))
-			for k, f := range fields {
-				if f.Type.IsBytes() {
-					n := f.Type.Width()
-					if f.Type == ref.TOctets && f.Len != ref.VarLen {
-						n = int(f.Len)
+			if !merged {
+				r = make([]ref.Value, len(fields))
+				for k, f := range fields {
+					if f.Type.IsBytes() {
+						n := f.Type.Width()
+						if f.Type == ref.TOctets && f.Len != ref.VarLen {
+							n = int(f.Len)
+						}
+						r[k] = ref.Value{B: make([]byte, n)}
 					}
-					r[k] = ref.Value{B: make([]byte, n)}
 				}
 			}
 			valid := [][]ref.Value{}
@@ -405,6 +428,60 @@ func runCase(c Case, st *Stats) *ev.Failure {
 	return nil
 }
 
+// runTransient: a template whose write fails for a transient reason (connected UDP socket, nobody
+// listening yet: the kernel reports the ICMP error on the next send) must not make data for that
+// template sendable once the collector is up. Returns nil when the transient failure could not be
+// provoked (inconclusive).
+func runTransient(_ int) *ev.Failure {
+	probe, err := net.ListenUDP("udp", &net.UDPAddr{IP: net.IPv4(127, 0, 0, 1)})
+	if err != nil {
+		return nil
+	}
+	addr := probe.LocalAddr().(*net.UDPAddr)
+	probe.Close()
+	ep, err := exporter.InitExportingProcess(exporter.ExporterInput{CollectorAddress: addr.String(), CollectorProtocol: "udp", ObservationDomainID: 77, TempRefTimeout: 3600})
+	if err != nil {
+		return nil
+	}
+	defer ep.CloseConnToCollector()
+	f1, f2 := []ref.Field{glue.UserField(ref.TU16)}, []ref.Field{glue.UserField(ref.TU32)}
+	t1, _ := exph.TemplateSet(300, f1, 0)
+	if _, err := ep.SendSet(t1); err != nil {
+		return nil
+	}
+	failed := false
+	for k := 0; k < 50 && !failed; k++ {
+		time.Sleep(2 * time.Millisecond)
+		t2, _ := exph.TemplateSet(301, f2, 0)
+		if _, err := ep.SendSet(t2); err != nil {
+			failed = true
+		} else {
+			return nil // the write went through: template 301 is legitimately "sent"
+		}
+	}
+	if !failed {
+		return nil
+	}
+	pc, err := net.ListenUDP("udp", addr)
+	if err != nil {
+		return nil
+	}
+	defer pc.Close()
+	var got [][]byte
+	for k := 0; k < 3; k++ { // the pending socket error may fail one more send
+		ds, _ := exph.DataSet(301, f2, [][]ref.Value{{{U: 5}}}, 0)
+		if _, err := ep.SendSet(ds); err == nil {
+			pc.SetReadDeadline(time.Now().Add(300 * time.Millisecond))
+			buf := make([]byte, 2048)
+			if n, _, err := pc.ReadFromUDP(buf); err == nil {
+				got = append(got, buf[:n])
+			}
+			return ev.Failf("the write of template 301 failed (connection refused), yet a data set for template 301 was accepted by SendSet afterwards (%d datagrams reached the collector): data transmitted for a template that was never sent", len(got))
+		}
+	}
+	return nil
+}
+
 var ills = []string{"v6_in_ipv4", "nil_in_ipv4", "5bytes_in_ipv6", "nil_in_ipv6", "mac_len_5", "mac_len_8", "mac_nil", "fixed_octets_short", "fixed_octets_long", "v4_in_ipv6", "v4mapped_in_ipv4"}
 
 func genCase(t *rapid.T) Case {
@@ -444,8 +521,8 @@ func genCase(t *rapid.T) Case {
 				break
 			}
 			s.Kind, s.Of = "data_wrong_count", rapid.IntRange(0, ntpl-1).Draw(t, "of")
-			s.Delta = rapid.SampledFrom([]int{-1, 1, -100}).Draw(t, "delta")
-			if rapid.Bool().Draw(t, "goodfirst") {
+			s.Delta = rapid.SampledFrom([]int{-1, 1, -100, -2, -2}).Draw(t, "delta")
+			if s.Delta == -2 || rapid.Bool().Draw(t, "goodfirst") {
 				s.Recs = [][]ref.Value{gen.Record(t, tpls[s.Of].Fields, 100)}
 			}
 		case 6:
@@ -512,6 +589,13 @@ func TestC09(t *testing.T) {
 					t.Fatalf("%s", f.Msg)
 				}
 			}
+		}
+	}
+	for k := 0; k < 5; k++ {
+		rec.Case(ev.Hash([]any{"transient", k}), true, "transient_write_failure")
+		if f := runTransient(k); f != nil {
+			rec.Violation("transient_write_failure", k, f.Msg)
+			t.Fatalf("%s", f.Msg)
 		}
 	}
 	ev.Rapid(t, rec, "sessions", rec.Scale(2500, 150000), genCase, func(c Case) *ev.Failure { return runRecorded("sessions", c) })
